@@ -282,15 +282,30 @@ Proof.
   - apply get_node_inv in E as (n & _ & [=] & _).
 Qed.
 
+Definition wset (w : world) (i : id) (n : node) : world :=
+  mkWorld (upd (w_nodes w) i n) (w_next w) (w_files w) (w_models w).
+Definition walloc (w : world) (n : node) : world :=
+  mkWorld (upd (w_nodes w) (w_next w) n) (w_next w + 1) (w_files w) (w_models w).
+Definition wmodels (w : world) (ms : list model) : world :=
+  mkWorld (w_nodes w) (w_next w) (w_files w) ms.
+
+Lemma set_node_wset i n w r w' : set_node i n w = Val (r, w') -> r = OK tt /\ w' = wset w i n.
+Proof. apply set_node_inv. Qed.
+Lemma modify_node_wset i f w r w' :
+  modify_node i f w = Val (r, w') -> exists n, w_nodes w i = Some n /\ r = OK tt /\ w' = wset w i (f n).
+Proof. apply modify_node_inv. Qed.
+Lemma alloc_walloc n w r w' : alloc n w = Val (r, w') -> r = OK (w_next w) /\ w' = walloc w n.
+Proof. apply alloc_inv. Qed.
+
 Lemma set_model_inv m x w r w' :
   set_model m x w = Val (r, w') ->
-  r = OK tt /\ w' = mkWorld (w_nodes w) (w_next w) (w_files w) (list_set (w_models w) (N.to_nat m) x).
+  r = OK tt /\ w' = wmodels w (list_set (w_models w) (N.to_nat m) x).
 Proof. unfold set_model. intros [= <- <-]. auto. Qed.
 
 Lemma modify_model_inv m f w r w' :
   modify_model m f w = Val (r, w') ->
   exists x, nth_opt (w_models w) (N.to_nat m) = Some x /\ r = OK tt /\
-            w' = mkWorld (w_nodes w) (w_next w) (w_files w) (list_set (w_models w) (N.to_nat m) (f x)).
+            w' = wmodels w (list_set (w_models w) (N.to_nat m) (f x)).
 Proof.
   unfold modify_model. intros H. wstep H.
   - winv E. apply set_model_inv in H as (-> & ->). eauto.
@@ -343,3 +358,78 @@ Proof.
 Qed.
 Lemma list_set_none {A} (l : list A) k x : nth_error l k = None -> list_set l k x = l.
 Proof. revert k. induction l as [|z l IH]; intros [|k]; cbn; try discriminate; auto. intros H. f_equal. auto. Qed.
+
+(* ------------------------------------------------------------------ symbolic execution engine *)
+(* invert a completed primitive step E : m w = Val (r, w1), or leave it alone *)
+Ltac wleaf E :=
+  first
+  [ winv E
+  | lazymatch type of E with
+    | set_node _ _ _ = Val _ => apply set_node_wset in E as (E & ?); fin_eq E
+    | alloc _ _ = Val _ => apply alloc_walloc in E as (E & ?); fin_eq E
+    | set_model _ _ _ = Val _ => apply set_model_inv in E as (E & ?); fin_eq E
+    | modify_node _ _ _ = Val _ =>
+      let n := fresh "n" in let Hn := fresh "Hn" in
+      apply modify_node_wset in E as (n & Hn & E & ?); fin_eq E
+    | modify_model _ _ _ = Val _ =>
+      let x := fresh "x" in let Hx := fresh "Hx" in
+      apply modify_model_inv in E as (x & Hx & E & ?); fin_eq E
+    | wtry _ _ = Val _ =>
+      let r0 := fresh "r" in
+      apply wtry_inv in E as (r0 & E & ?); try subst
+    end
+  | idtac ].
+
+(* one step on H : prog w = Val (r, w'); [fin] closes side goals (error exits) when it can *)
+Ltac wrun1 H fin :=
+  lazymatch type of H with
+  | wbind _ _ _ = Val _ =>
+    let a := fresh "a" in let E := fresh "E" in
+    wstep_as H a E;
+    lazymatch type of E with
+    | _ = Val (ER _, _) => wleaf E; try solve [fin]
+    | _ => wleaf E
+    end
+  | ?f ?w = Val _ =>
+    lazymatch f with
+    | match ?x with _ => _ end => destruct x eqn:?
+    | if ?b then _ else _ => destruct b eqn:?
+    | wret _ => winv H; try solve [fin]
+    | wfail _ => winv H; try solve [fin]
+    | wpanic _ => discriminate H
+    | wfuel => discriminate H
+    | wl _ => winv H; try solve [fin]
+    | get_node _ => winv H; try solve [fin]
+    | set_node _ _ => wleaf H; try solve [fin]
+    | modify_node _ _ => wleaf H; try solve [fin]
+    | modify_model _ _ => wleaf H; try solve [fin]
+    | set_model _ _ => wleaf H; try solve [fin]
+    end
+  end.
+Ltac wrun H fin := repeat (wrun1 H fin).
+
+(* like wrun, but only steps over read-only computations: stops in front of the first mutation *)
+Ltac wrun_ro1 H fin :=
+  lazymatch type of H with
+  | wbind ?m _ _ = Val _ =>
+    let R := fresh in
+    assert (R : ro m) by ro_tac; clear R;
+    let a := fresh "a" in let E := fresh "E" in
+    wstep_as H a E;
+    lazymatch type of E with
+    | _ = Val (ER _, _) => wleaf E; try solve [fin]
+    | _ => wleaf E
+    end
+  | ?f ?w = Val _ =>
+    lazymatch f with
+    | match ?x with _ => _ end => destruct x eqn:?
+    | if ?b then _ else _ => destruct b eqn:?
+    | wret _ => winv H; try solve [fin]
+    | wfail _ => winv H; try solve [fin]
+    | wpanic _ => discriminate H
+    | wfuel => discriminate H
+    | wl _ => winv H; try solve [fin]
+    | get_node _ => winv H; try solve [fin]
+    end
+  end.
+Ltac wrun_ro H fin := repeat (wrun_ro1 H fin).
